@@ -12,7 +12,8 @@ EXPLANATION = ("Structural necessary conditions of exactly-once delivery: stream
                "the documented cancel-safe accept futures own no dequeued value at any suspension point and await only cancel-safe "
                "leaf futures (coroutine layout); the worker pulls an item from quinn only after reserving a slot on every queue "
                "it can be routed to; each per-stream task hands a parsed stream to exactly one queue through an infallible "
-               "Permit::send and drops it only on the enumerated error arms.")
+               "Permit::send and drops it only on the enumerated error arms."
+               ' Also (C08-R7/R8): a reset before the preamble stays a per-stream IO event; the public accept calls ask the driver first on every path (queued items are drained before the termination cause is reported).')
 NOT_DECIDED = ["exactly-once of quinn's accept queue and tokio's mpsc (trusted)", "behaviour with many concurrent acceptors at run time"]
 TRUSTED = ["rustc trait/impl table and coroutine layout", "tokio mpsc / Mutex cancel-safety as documented", "quinn accept futures' cancel-safety as documented"]
 
